@@ -146,5 +146,24 @@ impl Vm {
     //@end
 }
 
+// compiler::compile (C03: every text yields a function or a compile error): whether a text compiles is a function of
+// the text; compiling interns strings and allocates function objects, it touches no fiber, no in-flight state and no
+// module table (assumed here — the compiler holds `&mut Vm` only to allocate: by text of compiler.rs)
+pub uninterp spec fn compiles(source: Seq<char>) -> bool;
+#[verifier::external_body]
+fn compile(vm: &mut Vm, source: String, module_path: Option<&str>) -> (r: Result<Root<ObjFunction>, Error>)
+    ensures *final(vm) == *old(vm), (r is Ok) == compiles(source@), r matches Ok(f) ==> f.obj().arity == 1, r matches Err(e) ==> e.kind is CompileError
+{ unimplemented!() }
+#[verifier::external_body]
+fn empty_args() -> (r: Vec<Value>) ensures r@.len() == 0 { unimplemented!() }
+
+// vm::interpret — one snippet of a session
+//@fn file=yarel/src/vm.rs path=interpret ret=r
+//@  rewrite R11
+//@  subst "compiler::compile(" => "compile("
+//@  subst "vm.execute(function, &[])" => "vm.execute(function, empty_args().as_slice())"
+//@  ensures @a_snippet_that_does_not_compile_executes_nothing_and_leaves_the_interpreter_as_it_was !compiles(source@) ==> (r matches Err(e) && e.kind is CompileError) && *final(vm) == *old(vm)
+//@end
+
 } // verus!
 fn main() {}
